@@ -59,10 +59,90 @@ var globalsAudited = map[string]string{}
 
 // GLOBALS: no function on the generation path writes package-level state (an earlier
 // generation in the same process cannot influence a later one).
+// globalMapFields: struct fields that may hold a package-level map (field-based, flow-insensitive):
+// a map loaded from a module global and stored into a field makes every update through that
+// field an update of the package-level map.
+func globalMapFields(funcs []*ssa.Function) map[*types.Var]*ssa.Global {
+	held := map[*types.Var]*ssa.Global{}
+	var src func(v ssa.Value, d int) *ssa.Global
+	src = func(v ssa.Value, d int) *ssa.Global {
+		if d > 6 {
+			return nil
+		}
+		if _, ok := v.Type().Underlying().(*types.Map); !ok {
+			return nil
+		}
+		switch y := v.(type) {
+		case *ssa.UnOp:
+			if y.Op != token.MUL {
+				return nil
+			}
+			switch a := y.X.(type) {
+			case *ssa.Global:
+				if a.Pkg != nil {
+					if _, in := relPkg(a.Pkg.Pkg); in {
+						return a
+					}
+				}
+			case *ssa.FieldAddr:
+				if fld := fieldOf(a); fld != nil {
+					return held[fld]
+				}
+			}
+		case *ssa.Phi:
+			for _, e := range y.Edges {
+				if g := src(e, d+1); g != nil {
+					return g
+				}
+			}
+		case *ssa.ChangeType:
+			return src(y.X, d+1)
+		}
+		return nil
+	}
+	for changed := true; changed; {
+		changed = false
+		for _, f := range funcs {
+			for _, b := range f.Blocks {
+				for _, ins := range b.Instrs {
+					st, ok := ins.(*ssa.Store)
+					if !ok {
+						continue
+					}
+					fa, ok := st.Addr.(*ssa.FieldAddr)
+					if !ok {
+						continue
+					}
+					fld := fieldOf(fa)
+					if fld == nil || held[fld] != nil {
+						continue
+					}
+					if g := src(st.Val, 0); g != nil {
+						held[fld] = g
+						changed = true
+					}
+				}
+			}
+		}
+	}
+	return held
+}
+
 func ruleGLOBALS(c *Ctx) {
 	const rule = "GLOBALS"
 	funcs := c.scopeFuncs()
 	n := 0
+	held := globalMapFields(funcs)
+	viaField := func(m ssa.Value) (*ssa.Global, *types.Var) {
+		if ld, ok := m.(*ssa.UnOp); ok && ld.Op == token.MUL {
+			if fa, ok := ld.X.(*ssa.FieldAddr); ok {
+				if fld := fieldOf(fa); fld != nil && held[fld] != nil {
+					return held[fld], fld
+				}
+			}
+		}
+		return nil, nil
+	}
 	for _, f := range funcs {
 		if f.Name() == "init" || strings.HasPrefix(f.Name(), "init#") || (f.Parent() != nil && strings.HasPrefix(f.Parent().Name(), "init")) {
 			continue
@@ -80,6 +160,12 @@ func ruleGLOBALS(c *Ctx) {
 				case *ssa.MapUpdate:
 					g = globalRoot(x.Map, 0)
 					what = "map update"
+					if g == nil {
+						if gg, fld := viaField(x.Map); gg != nil {
+							g = gg
+							what = "map update through field " + fld.Name() + " (which is assigned the package-level map)"
+						}
+					}
 				case *ssa.Call:
 					// append/copy/delete/clear on global-rooted containers
 					if bi, ok := x.Call.Value.(*ssa.Builtin); ok && len(x.Call.Args) > 0 {
